@@ -248,6 +248,7 @@ Fixpoint mv (fuel : nat) (sch : schema) (check : bool) (t : ftype) (fi : option 
   | TStr, VStr s => simple_el fi s
   | TBool, VScalar s _ => simple_el fi s
   | TInt, VScalar s _ => simple_el fi s
+  | TUint, VScalar s _ => simple_el fi s
   | _, _ => None
   end end.
 
@@ -384,7 +385,8 @@ Theorem mv_names_ok sch : schema_names_ok sch = true ->
 Proof.
   intro Hsch. induction fuel as [|k IH]; intros check t fi pns v ts Hfi Hv H; [discriminate|].
   cbn [mv] in H. destruct (check && omit_of fi && is_empty_val v); [inversion H; reflexivity|].
-  destruct t as [| | | |n|t'|t'].
+  destruct t as [| | | | |n|t'|t'].
+  - destruct v; try discriminate. destruct fi as [f|]; [|discriminate]. inversion H; subst. unfold all_ok. cbn. cbn in Hfi. unfold str_name_ok in Hfi. now rewrite Hfi.
   - destruct v; try discriminate. destruct fi as [f|]; [|discriminate]. inversion H; subst. unfold all_ok. cbn. cbn in Hfi. unfold str_name_ok in Hfi. now rewrite Hfi.
   - destruct v; try discriminate. destruct fi as [f|]; [|discriminate]. inversion H; subst. unfold all_ok. cbn. cbn in Hfi. unfold str_name_ok in Hfi. now rewrite Hfi.
   - destruct v; try discriminate. destruct fi as [f|]; [|discriminate]. inversion H; subst. unfold all_ok. cbn. cbn in Hfi. unfold str_name_ok in Hfi. now rewrite Hfi.
